@@ -170,7 +170,8 @@ pub fn exec(song: &mut Song, tokens: &Vec<Token>) -> bool {
                 }
             },
             TokenType::Track => {
-                let no = exec_value_int_by_token(song, t) as usize;
+                let no = exec_value_int_by_token(song, t);
+                let no = if no < 0 { 0 } else { no as usize }; // a negative number selects track 0
                 song.change_cur_track(no);
             },
             TokenType::Channel => {
